@@ -1,5 +1,6 @@
 """first-order part of C06: infer() returns, and leaves a state in which no pass and no node-level call changes
 anything; a second infer() reports zero and takes one sweep."""
+from common import size
 import streams
 from checks._folcommon import tabs_of, is_inference, amount_of
 
@@ -27,7 +28,7 @@ def oracle(rec):
 
 
 def run(rep, tier, seed):
-    n = 100 if tier == "quick" else 2000
+    n = size(tier, 100, 2000)
     hist = {}
     for name, quant in (("fol-qf", False), ("quant", True)):
         progs = [streams.gen_fol_program(seed + 23, k, quant=quant, n_ops=(0, 0)) for k in range(n)]
